@@ -10,8 +10,8 @@ Section AnyNum.
   Context {T : Type} {NT : Num T} {ND : NumDur T}.
   Variable powf : T -> T -> T.
 
-  Lemma paused_frozen_any (fuel : nat) (c c' : clock T) (dt : T) (i : info T) :
-    c_ticking c = false -> clock_update powf fuel c dt i = Ok c' ->
+  Lemma paused_frozen_any (c c' : clock T) (dt : T) (i : info T) :
+    c_ticking c = false -> clock_update powf c dt i = Ok c' ->
     c_state c' = c_state c /\ c_ticking c' = false.
   Proof.
     intros Ht. unfold clock_update.
@@ -48,14 +48,15 @@ Section Clock.
     - unfold Z.sub. rewrite inject_Z_plus, inject_Z_opp. change (inject_Z 1) with 1. lra.
   Qed.
 
-  (** The tick loop terminates after [floor timer] iterations and splits the timer exactly. *)
-  Lemma tick_loop_spec (fuel : nat) : forall (tk : Z) (timer : Q),
+  (** COUNTER-MODEL (before the F7 repair).  The tick loop terminates after [floor timer] iterations
+      and splits the timer exactly. *)
+  Lemma tick_loop_old_spec (fuel : nat) : forall (tk : Z) (timer : Q),
     0 <= timer -> (Z.to_nat (Qfloor timer) < fuel)%nat -> (0 <= tk)%Z -> (tk + Qfloor timer <= u64_max)%Z ->
-    exists fr, tick_loop fuel tk timer = Ok ((tk + Qfloor timer)%Z, fr) /\
+    exists fr, tick_loop_old fuel tk timer = Ok ((tk + Qfloor timer)%Z, fr) /\
                fr == timer - inject_Z (Qfloor timer) /\ 0 <= fr /\ fr < 1.
   Proof.
     induction fuel as [|f IH]; intros tk timer H0 Hf Htk Hmax; [lia|].
-    cbn [tick_loop]. change (nleb n1 timer) with (Qle_bool 1 timer).
+    cbn [tick_loop_old]. change (nleb n1 timer) with (Qle_bool 1 timer).
     destruct (Qle_bool 1 timer) eqn:E.
     - apply Qle_bool_iff in E.
       assert (F1 : (1 <= Qfloor timer)%Z).
@@ -78,6 +79,43 @@ Section Clock.
       change (inject_Z 0) with 0. ring.
   Qed.
 
+  (** The tick split of the repaired [Clock::update]: no loop, no fuel, no overflow; the timer is
+      split exactly into [floor timer] whole ticks (the count saturating at [u64::MAX]) and a
+      fraction in [0,1). *)
+  Lemma tick_update_spec (tk : Z) (timer : Q) :
+    0 <= timer -> (0 <= tk <= u64_max)%Z ->
+    exists fr, tick_update tk timer = (Z.min u64_max (tk + Qfloor timer), fr) /\
+               fr == timer - inject_Z (Qfloor timer) /\ 0 <= fr /\ fr < 1.
+  Proof.
+    intros H0 Htk. unfold tick_update. change (nleb n1 timer) with (Qle_bool 1 timer).
+    destruct (Qfloor_bounds timer) as [B1 B2].
+    destruct (Qle_bool 1 timer) eqn:E.
+    - apply Qle_bool_iff in E.
+      assert (F1 : (1 <= Qfloor timer)%Z).
+      { change 1%Z with (Qfloor 1). apply Qfloor_resp_le. exact E. }
+      cbn [nisfinite nfloor ntoU64 nsub Num_Q].
+      rewrite Qtruncz_inject. exists (Qred (timer - inject_Z (Qfloor timer))).
+      split; [f_equal; unfold u64_max in *; lia|]. rewrite Qred_correct. split; [reflexivity|]. split; lra.
+    - apply Qle_bool_false in E.
+      assert (F : Qfloor timer = 0%Z) by (apply Qfloor_unique; change (inject_Z 0) with 0; lra).
+      exists timer. rewrite F, Z.add_0_r, Z.min_r by lia. split; [reflexivity|]. split; [|split; assumption].
+      change (inject_Z 0) with 0. ring.
+  Qed.
+  (** below the saturation point: exactly what the old loop returned, for every amount of fuel
+      that let it finish *)
+  Lemma tick_update_agrees_with_loop_Q (fuel : nat) (tk : Z) (timer : Q) :
+    0 <= timer -> (Z.to_nat (Qfloor timer) < fuel)%nat -> (0 <= tk)%Z -> (tk + Qfloor timer <= u64_max)%Z ->
+    exists fr fr', tick_loop_old fuel tk timer = Ok ((tk + Qfloor timer)%Z, fr) /\
+                   tick_update tk timer = ((tk + Qfloor timer)%Z, fr') /\ fr == fr'.
+  Proof.
+    intros H0 Hf Htk Hmax.
+    destruct (tick_loop_old_spec fuel tk timer H0 Hf Htk Hmax) as [fr [R [V _]]].
+    assert (F0 : (0 <= Qfloor timer)%Z) by (change 0%Z with (Qfloor 0); apply Qfloor_resp_le; exact H0).
+    destruct (tick_update_spec tk timer H0) as [fr' [R' [V' _]]]; [lia|].
+    rewrite Z.min_r in R' by lia.
+    exists fr, fr'. split; [exact R|]. split; [exact R'|]. rewrite V, V'. reflexivity.
+  Qed.
+
   Lemma state_time_ok s : state_ok s -> (0 <= fst (state_time s))%Z /\ 0 <= snd (state_time s) /\ snd (state_time s) < 1.
   Proof. destruct s as [|tk fr]; cbn; [intros _; split; [lia|split; lra]|tauto]. Qed.
 
@@ -87,45 +125,40 @@ Section Clock.
   Proof. unfold inc_of. cbn [nmul Num_Q]. apply Qred_correct. Qed.
 
   (** one update of a ticking clock: time advances by exactly speed * dt *)
-  Lemma clock_update_ticking (fuel : nat) (c : clockQ) (dt : Q) (i : info Q) (sp : sparam) (fin : bool) :
+  Lemma clock_update_ticking (c : clockQ) (dt : Q) (i : info Q) (sp : sparam) (fin : bool) :
     c_ticking c = true -> state_ok (c_state c) ->
     param_update powf (cspeed Q) cspeed_interpolate (c_speed c) dt i = Ok (sp, fin) ->
     let inc := inc_of (p_raw sp) dt in
     0 <= inc -> time_of (c_state c) + inc < inject_Z (2 ^ 64) ->
-    (Z.to_nat (Qfloor (1 + inc)) < fuel)%nat ->
-    exists c', clock_update powf fuel c dt i = Ok c' /\ c_ticking c' = true /\ c_speed c' = sp /\
+    exists c', clock_update powf c dt i = Ok c' /\ c_ticking c' = true /\ c_speed c' = sp /\
                state_ok (c_state c') /\ c_state c' <> NotStarted /\
                time_of (c_state c') == time_of (c_state c) + inc.
   Proof.
-    intros Ht Hok Hp inc Hinc Hmax Hfuel. unfold clock_update. rewrite Hp. cbn [obind]. rewrite Ht. cbn [negb].
+    intros Ht Hok Hp inc Hinc Hmax. unfold clock_update. rewrite Hp. cbn [obind]. rewrite Ht. cbn [negb].
     destruct (state_time_ok _ Hok) as [Z0 [F0 F1]]. unfold time_of in *.
     destruct (state_time (c_state c)) as [tk fr]. cbn [fst snd] in *.
     fold (inc_of (p_raw sp) dt). fold inc.
     change (nadd fr inc) with (Qred (fr + inc)).
     assert (Tm : Qred (fr + inc) == fr + inc) by apply Qred_correct.
     destruct (Qfloor_bounds (Qred (fr + inc))) as [B1 B2].
-    destruct (tick_loop_spec fuel tk (Qred (fr + inc))) as [fr' [R [V [L U]]]].
+    assert (P0 : (0 <= Qfloor (Qred (fr + inc)))%Z) by (change 0%Z with (Qfloor 0); apply Qfloor_resp_le; rewrite Tm; lra).
+    assert (A : (tk + Qfloor (Qred (fr + inc)) < 2 ^ 64)%Z).
+    { rewrite Zlt_Qlt, inject_Z_plus. lra. }
+    destruct (tick_update_spec tk (Qred (fr + inc))) as [fr' [R [V [L U]]]].
     - rewrite Tm. lra.
-    - assert (Qfloor (Qred (fr + inc)) <= Qfloor (1 + inc))%Z by (apply Qfloor_resp_le; rewrite Tm; lra).
-      assert (0 <= Qfloor (Qred (fr + inc)))%Z by (change 0%Z with (Qfloor 0); apply Qfloor_resp_le; rewrite Tm; lra).
-      lia.
-    - exact Z0.
-    - assert (A : (tk + Qfloor (Qred (fr + inc)) < 2 ^ 64)%Z).
-      { rewrite Zlt_Qlt, inject_Z_plus. lra. }
-      unfold u64_max. lia.
-    - rewrite R. cbn [obind]. eexists. split; [reflexivity|]. cbn [c_ticking c_speed c_state state_time fst snd state_ok].
+    - unfold u64_max. lia.
+    - rewrite R. rewrite Z.min_r by (unfold u64_max; lia).
+      eexists. split; [reflexivity|]. cbn [c_ticking c_speed c_state state_time fst snd state_ok].
       split; [reflexivity|]. split; [reflexivity|]. split.
-      + split; [|split; assumption].
-        assert (0 <= Qfloor (Qred (fr + inc)))%Z by (change 0%Z with (Qfloor 0); apply Qfloor_resp_le; rewrite Tm; lra).
-        lia.
+      + split; [lia|split; assumption].
       + split; [discriminate|]. rewrite V, inject_Z_plus. lra.
   Qed.
 
   (** ** every list of updates (= every partition of audio time into callbacks and chunks) *)
-  Fixpoint clock_run (fuel : nat) (c : clockQ) (l : list (Q * info Q)) : outcome clockQ :=
+  Fixpoint clock_run (c : clockQ) (l : list (Q * info Q)) : outcome clockQ :=
     match l with
     | [] => Ok c
-    | (dt, i) :: l' => let! c' := clock_update powf fuel c dt i in clock_run fuel c' l'
+    | (dt, i) :: l' => let! c' := clock_update powf c dt i in clock_run c' l'
     end.
   (** the clock's advance at each update: (speed parameter's value at that update) * dt, the
       parameter being run by the C06 model *)
@@ -140,35 +173,28 @@ Section Clock.
   Lemma qsum_nonneg l : Forall (fun x => 0 <= x) l -> 0 <= qsum l.
   Proof. induction 1 as [|x l Hx Hl IH]; cbn [qsum fold_right]; [lra|]. fold (qsum l). lra. Qed.
 
-  Lemma clock_run_exact (fuel : nat) (l : list (Q * info Q)) : forall (c : clockQ) (incs : list Q),
+  Lemma clock_run_exact (l : list (Q * info Q)) : forall (c : clockQ) (incs : list Q),
     c_ticking c = true -> state_ok (c_state c) ->
     increments (c_speed c) l = Ok incs -> Forall (fun x => 0 <= x) incs ->
     time_of (c_state c) + qsum incs < inject_Z (2 ^ 64) ->
-    (Z.to_nat (Qfloor (1 + qsum incs)) < fuel)%nat ->
-    exists c', clock_run fuel c l = Ok c' /\ c_ticking c' = true /\ state_ok (c_state c') /\
+    exists c', clock_run c l = Ok c' /\ c_ticking c' = true /\ state_ok (c_state c') /\
                time_of (c_state c') == time_of (c_state c) + qsum incs.
   Proof.
-    induction l as [|[dt i] l IH]; intros c incs Ht Hok Hincs Hpos Hmax Hfuel.
+    induction l as [|[dt i] l IH]; intros c incs Ht Hok Hincs Hpos Hmax.
     - cbn in Hincs. inversion Hincs. subst incs. exists c. cbn. repeat split; try assumption. ring.
     - cbn [increments] in Hincs.
       destruct (param_update powf (cspeed Q) cspeed_interpolate (c_speed c) dt i) as [[sp fin]| |] eqn:Hp; cbn [obind] in Hincs; try discriminate.
       destruct (increments sp l) as [r| |] eqn:Hr; cbn [obind] in Hincs; try discriminate.
       inversion Hincs. subst incs. clear Hincs.
       inversion Hpos as [|x xs Hx Hxs]. subst x xs. pose proof (qsum_nonneg _ Hxs) as Hs.
-      cbn [qsum fold_right] in Hmax, Hfuel. fold (qsum r) in Hmax, Hfuel.
-      destruct (clock_update_ticking fuel c dt i sp fin Ht Hok Hp) as [c1 [U [T1 [S1 [O1 [_ V1]]]]]].
+      cbn [qsum fold_right] in Hmax. fold (qsum r) in Hmax.
+      destruct (clock_update_ticking c dt i sp fin Ht Hok Hp) as [c1 [U [T1 [S1 [O1 [_ V1]]]]]].
       + exact Hx.
       + lra.
-      + assert (Qfloor (1 + inc_of (p_raw sp) dt) <= Qfloor (1 + (inc_of (p_raw sp) dt + qsum r)))%Z by (apply Qfloor_resp_le; lra).
-        assert (0 <= Qfloor (1 + inc_of (p_raw sp) dt))%Z by (change 0%Z with (Qfloor 0); apply Qfloor_resp_le; lra).
-        lia.
       + destruct (IH c1 r T1 O1) as [c' [R [T2 [O2 V2]]]].
         * rewrite S1. exact Hr.
         * exact Hxs.
         * rewrite V1. lra.
-        * assert (Qfloor (1 + qsum r) <= Qfloor (1 + (inc_of (p_raw sp) dt + qsum r)))%Z by (apply Qfloor_resp_le; lra).
-          assert (0 <= Qfloor (1 + qsum r))%Z by (change 0%Z with (Qfloor 0); apply Qfloor_resp_le; lra).
-          lia.
         * exists c'. cbn [clock_run]. rewrite U. cbn [obind]. split; [exact R|]. split; [exact T2|]. split; [exact O2|].
           rewrite V2, V1. cbn [qsum fold_right]. fold (qsum r). ring.
   Qed.
@@ -190,25 +216,21 @@ Section Clock.
     rewrite IH, inc_of_eq, E. ring.
   Qed.
 
-  Lemma clock_exact_time_lemma (fuel : nat) (c : clockQ) (l : list (Q * info Q)) :
+  Lemma clock_exact_time_lemma (c : clockQ) (l : list (Q * info Q)) :
     c_ticking c = true -> state_ok (c_state c) -> constant_speed (c_speed c) ->
     let r := as_tps (p_raw (c_speed c)) in
     let t := qsum (map fst l) in
     0 <= r -> Forall (fun x => 0 <= fst x) l ->
     time_of (c_state c) + r * t < inject_Z (2 ^ 64) ->
-    (Z.to_nat (Qfloor (1 + r * t)) < fuel)%nat ->
-    exists c', clock_run fuel c l = Ok c' /\ c_ticking c' = true /\ state_ok (c_state c') /\
+    exists c', clock_run c l = Ok c' /\ c_ticking c' = true /\ state_ok (c_state c') /\
                time_of (c_state c') == time_of (c_state c) + r * t.
   Proof.
-    intros Ht Hok Hc r t Hr Hl Hmax Hfuel.
+    intros Ht Hok Hc r t Hr Hl Hmax.
     pose proof (qsum_scaled r (p_raw (c_speed c)) l (Qeq_refl _)) as E. fold t in E.
-    destruct (clock_run_exact fuel l c _ Ht Hok (increments_constant l _ Hc)) as [c' [R [T1 [O1 V1]]]].
+    destruct (clock_run_exact l c _ Ht Hok (increments_constant l _ Hc)) as [c' [R [T1 [O1 V1]]]].
     - clear - Hr Hl. induction Hl as [|[dt i] l Hd Hl IH]; cbn [map]; constructor; [|exact IH].
       cbn [fst] in *. rewrite inc_of_eq. fold r. apply Qmult_le_0_compat; assumption.
     - rewrite E. exact Hmax.
-    - assert (Qfloor (1 + qsum (map (fun x => inc_of (p_raw (c_speed c)) (fst x)) l)) = Qfloor (1 + r * t)) as ->
-        by (apply Qfloor_comp; rewrite E; reflexivity).
-      exact Hfuel.
     - exists c'. split; [exact R|]. split; [exact T1|]. split; [exact O1|]. rewrite V1, E. reflexivity.
   Qed.
 
@@ -226,36 +248,32 @@ Section Clock.
   Qed.
 
   (** partition independence: equal audio time, however split, gives the same clock time *)
-  Lemma partition_independent_lemma (fuel : nat) (c : clockQ) (l1 l2 : list (Q * info Q)) :
+  Lemma partition_independent_lemma (c : clockQ) (l1 l2 : list (Q * info Q)) :
     c_ticking c = true -> state_ok (c_state c) -> constant_speed (c_speed c) ->
     let r := as_tps (p_raw (c_speed c)) in
     0 <= r -> Forall (fun x => 0 <= fst x) l1 -> Forall (fun x => 0 <= fst x) l2 ->
     qsum (map fst l1) == qsum (map fst l2) ->
     time_of (c_state c) + r * qsum (map fst l1) < inject_Z (2 ^ 64) ->
-    (Z.to_nat (Qfloor (1 + r * qsum (map fst l1))) < fuel)%nat ->
-    exists c1 c2, clock_run fuel c l1 = Ok c1 /\ clock_run fuel c l2 = Ok c2 /\
+    exists c1 c2, clock_run c l1 = Ok c1 /\ clock_run c l2 = Ok c2 /\
                   fst (state_time (c_state c1)) = fst (state_time (c_state c2)) /\
                   snd (state_time (c_state c1)) == snd (state_time (c_state c2)).
   Proof.
-    intros Ht Hok Hc r Hr H1 H2 E Hmax Hfuel.
-    destruct (clock_exact_time_lemma fuel c l1 Ht Hok Hc Hr H1 Hmax Hfuel) as [c1 [R1 [_ [O1 V1]]]].
-    destruct (clock_exact_time_lemma fuel c l2 Ht Hok Hc Hr H2) as [c2 [R2 [_ [O2 V2]]]].
+    intros Ht Hok Hc r Hr H1 H2 E Hmax.
+    destruct (clock_exact_time_lemma c l1 Ht Hok Hc Hr H1 Hmax) as [c1 [R1 [_ [O1 V1]]]].
+    destruct (clock_exact_time_lemma c l2 Ht Hok Hc Hr H2) as [c2 [R2 [_ [O2 V2]]]].
     - fold r. rewrite <- E. exact Hmax.
-    - fold r. assert (Qfloor (1 + r * qsum (map fst l2)) = Qfloor (1 + r * qsum (map fst l1))) as ->
-        by (apply Qfloor_comp; rewrite E; reflexivity).
-      exact Hfuel.
     - exists c1, c2. split; [exact R1|]. split; [exact R2|].
       apply state_time_unique; [exact O1|exact O2|]. rewrite V1, V2. fold r. rewrite E. reflexivity.
   Qed.
 
   (** a paused clock is frozen for every list of updates *)
-  Lemma paused_frozen_run (fuel : nat) (l : list (Q * info Q)) : forall (c c' : clockQ),
-    c_ticking c = false -> clock_run fuel c l = Ok c' -> c_state c' = c_state c /\ c_ticking c' = false.
+  Lemma paused_frozen_run (l : list (Q * info Q)) : forall (c c' : clockQ),
+    c_ticking c = false -> clock_run c l = Ok c' -> c_state c' = c_state c /\ c_ticking c' = false.
   Proof.
     induction l as [|[dt i] l IH]; intros c c' Ht R.
     - cbn in R. inversion R. subst c'. split; [reflexivity|exact Ht].
-    - cbn [clock_run] in R. destruct (clock_update powf fuel c dt i) as [c1| |] eqn:U; cbn [obind] in R; try discriminate.
-      destruct (paused_frozen_any powf fuel c c1 dt i Ht U) as [S1 T1].
+    - cbn [clock_run] in R. destruct (clock_update powf c dt i) as [c1| |] eqn:U; cbn [obind] in R; try discriminate.
+      destruct (paused_frozen_any powf c c1 dt i Ht U) as [S1 T1].
       destruct (IH c1 c' T1 R) as [S2 T2]. split; [congruence|exact T2].
   Qed.
 End Clock.
@@ -264,6 +282,6 @@ End Clock.
 Example exact_time_example :
   let c := {| c_ticking := true; c_speed := param_new (Fixed (TicksPerSecond (3 # 8))) (TicksPerMinute 120);
               c_state := NotStarted |} in
-  exists c', clock_run (fun _ _ => 0) 10 c [(1 # 2, no_info); (2, no_info); (1 # 2, no_info)] = Ok c' /\
+  exists c', clock_run (fun _ _ => 0) c [(1 # 2, no_info); (2, no_info); (1 # 2, no_info)] = Ok c' /\
              c_state c' = Started 1 (1 # 8).
 Proof. eexists. split; vm_compute; reflexivity. Qed.
